@@ -294,8 +294,14 @@ def gen_prog_case(rng, tier, force=None):
     build = force.get('build', rng.choice(['direct', 'template']))
     if 'tree' not in force and build == 'direct' and rng.random() < 0.12:
         tree = zeroify(tree, rng, rng.choice([0.15, 0.3]))      # repetition count 0 (what a volatile count can be)
-    return {'kind': 'prog', 'rate': str(rate), 'defined': defined, 'wfs': wfs, 'tree': tree, 'cfg': cfg,
+    case = {'kind': 'prog', 'rate': str(rate), 'defined': defined, 'wfs': wfs, 'tree': tree, 'cfg': cfg,
             'build': build, 'ntuple': nch}
+    if build == 'direct' and not any_vol(tree) and nch is None and rng.random() < 0.1:
+        # stateful: the same Loop object was compiled before with other limits / another mode (result ignored)
+        mn1 = rng.choice([1, 2, 3, 4, 6])
+        case['first'] = {'min': mn1, 'max': rng.choice([mn1, mn1 + 1, mn1 + 3, 16]),
+                         'mode': rng.choice([None, None, 'advanced', 'single'])}
+    return case
 
 
 def enum_shapes(n):
@@ -791,8 +797,8 @@ def g_chan(c):
     return 'None' if c is None else '(Some %s)' % gZ(CH_ID[c])
 
 
-def g_cfg(case):
-    cfg = case['cfg']
+def g_cfg(case, cfg=None):
+    cfg = case['cfg'] if cfg is None else cfg
     nc, nm = case.get('ntuple') or [2, 2]
     mode = {None: 'None', 'single': '(Some false)', 'advanced': '(Some true)'}[cfg['mode']]
     tr = lambda p: '(%s, %s)' % (gQ(F(p[0])), gQ(F(p[1])))
@@ -827,6 +833,10 @@ def to_coq(case, obs):
     else:
         impl = 'None'
     tbl = glist(lambda wc: g_wf(*wc), list(zip(case['wfs'], obs['cls'])))
+    if case.get('first') is not None:
+        # compiled twice: first configuration, second configuration, the tree as built, the tree read back from the Loop
+        return '(CTwice %s %s %s %s %s %s)' % (g_cfg(case, dict(case['cfg'], **case['first'])), g_cfg(case), tbl,
+                                             g_tree(case['tree']), g_tree(obs['tree']), impl)
     return '(CProg %s %s %s %s)' % (g_cfg(case), tbl, g_tree(obs['tree']), impl)
 
 
